@@ -238,7 +238,7 @@ static void store_digests (int sid, sf_count_t dataoffset)
 static void *refbuf [NHANDLE][4] ; static long long reflen [NHANDLE][4] ;
 static int res_harness_owned (const volatile void *p)
 {	if (p == (void *) linebuf) return 1 ;
-	for (int s = 0 ; s < NSTORE ; s++) if (p == (void *) stores [s].data) return 1 ;
+	for (int s = 0 ; s < NSTORE ; s++) if (p == (void *) stores [s].data || p == (void *) stores [s].snap) return 1 ;
 	for (int h = 0 ; h < NHANDLE ; h++) for (int k = 0 ; k < 4 ; k++) if (p == refbuf [h][k]) return 1 ;
 	return 0 ;
 }
@@ -459,6 +459,10 @@ static void do_open (void)
 			close (fds [1]) ; hfd [h] = fds [0] ;
 			handles [h] = sf_open_fd (fds [0], m, &info, 1) ;
 			}
+		else if (route == 'F')
+		{	int fd = open ("/dev/full", O_RDWR) ; hfd [h] = fd ;
+			handles [h] = sf_open_fd (fd, m, &info, 1) ;
+			}
 		else
 		{	int fd = open (path, mode == 'r' ? O_RDONLY : O_RDWR, 0644) ;
 			if (route == 'e') lseek (fd, pre, SEEK_SET) ;
@@ -514,6 +518,17 @@ static void do_close (void)
 		{ char path [512] ; store_path (hstore [h], path, sizeof (path)) ; unlink (path) ; }
 		} ;
 	store_digests (hstore [h], off) ;
+	{	VIO_MEM *m = &stores [hstore [h]] ;
+		if (m->snapped)
+		{	sf_count_t a = off < 0 ? 0 : off ; int kept = 1 ;
+			sf_count_t firstdiff = -1 ;
+			if (m->snap_len > a)
+			{	for (sf_count_t k = a ; k < m->snap_len ; k++) if (k >= m->len || m->data [k] != m->snap [k]) { firstdiff = k - a ; break ; }
+				kept = firstdiff < 0 ;
+				} ;
+			printf (" snaplen=%lld kept=%d firstdiff=%lld", (long long) m->snap_len, kept, (long long) firstdiff) ;
+			} ;
+		} ;
 	res_report (h) ;
 	printf ("\n") ;
 }
@@ -708,11 +723,14 @@ static void do_str (void)
 		}
 }
 
+static struct { char name [64] ; unsigned char *addr ; size_t size ; unsigned char *copy ; } gtab [128] ; static int ngtab ;
+int main (int argc, char **argv) ;
 int main (int argc, char **argv)
 {	FILE *in = argc > 1 ? fopen (argv [1], "r") : stdin ;
 	if (! in) { perror ("script") ; return 2 ; }
 	ssize_t len ;
 	signal (SIGCHLD, SIG_IGN) ; signal (SIGPIPE, SIG_IGN) ;
+	unsigned budget = getenv ("SFD_BUDGET") ? (unsigned) atoi (getenv ("SFD_BUDGET")) : 0 ;
 	if (getenv ("SFDRIVE_TMP")) tmpdir = getenv ("SFDRIVE_TMP") ;
 	mkdir (tmpdir, 0755) ;
 	if (getenv ("SFD_RES"))
@@ -733,6 +751,7 @@ int main (int argc, char **argv)
 		for (char *s = strtok (linebuf, " \t\r\n") ; s && ntok < 69999 ; s = strtok (NULL, " \t\r\n")) toks [ntok++] = s ;
 		if (ntok == 0 || toks [0][0] == '#') continue ;
 		const char *op = toks [0] ;
+		if (budget > 0) alarm (budget) ;	/* per-call time budget: SIGALRM ends the process (the driver reports a hang at this line) */
 		res_tag = (ntok > 1 && strcmp (op, "store") && strcmp (op, "fault") && strcmp (op, "calls") && toks [1][0] >= '0' && toks [1][0] <= '9') ? atoi (toks [1]) : (ntok > 2 && ! strcmp (op, "chunk")) ? atoi (toks [2]) : -1 ;
 		if (res_on && res_fd_base == 0) res_fd_base = count_dir ("/proc/self/fd") ;
 		if (! strcmp (op, "open")) do_open () ;
@@ -800,15 +819,37 @@ int main (int argc, char **argv)
 			if (p->wchunks.chunks) for (uint32_t k = 0 ; k < p->wchunks.used ; k++) if (p->wchunks.chunks [k].data) payload ++ ;
 			printf ("%d own mask=%x hooks=%d%d blocks=%ld payload=%ld\n", lineno, mask, p->codec_close != NULL, p->container_close != NULL, blocks, payload) ;
 			}
+		else if (! strcmp (op, "gtab"))
+		{	/* gtab <address of main according to nm, hex> <name:addr:size>...   the library's writable process-wide objects (addresses from nm on this binary);
+			   a copy of each is kept; gsum reports which of them differ from that copy now */
+			uintptr_t slide = (uintptr_t) &main - (uintptr_t) strtoull (toks [1], NULL, 16) ;
+			ngtab = 0 ;
+			for (int k = 2 ; k < ntok && ngtab < 128 ; k++)
+			{	char *c1 = strchr (toks [k], ':'), *c2 = c1 ? strchr (c1 + 1, ':') : NULL ; if (! c2) continue ;
+				*c1 = 0 ; *c2 = 0 ;
+				snprintf (gtab [ngtab].name, sizeof (gtab [ngtab].name), "%s", toks [k]) ;
+				gtab [ngtab].addr = (unsigned char *) (slide + (uintptr_t) strtoull (c1 + 1, NULL, 16)) ; gtab [ngtab].size = strtoull (c2 + 1, NULL, 16) ;
+				gtab [ngtab].copy = malloc (gtab [ngtab].size + 1) ; memcpy (gtab [ngtab].copy, gtab [ngtab].addr, gtab [ngtab].size) ;
+				ngtab ++ ;
+				} ;
+			printf ("%d gtab n=%d\n", lineno, ngtab) ;
+			}
+		else if (! strcmp (op, "gsum"))
+		{	printf ("%d gsum changed=", lineno) ; int nch = 0 ;
+			for (int k = 0 ; k < ngtab ; k++) if (memcmp (gtab [k].copy, gtab [k].addr, gtab [k].size) != 0) printf ("%s%s", nch ++ ? "," : "", gtab [k].name) ;
+			if (! nch) printf ("-") ;
+			printf ("\n") ;
+			}
 		else if (! strcmp (op, "state")) { int h = tokll (1) ; if (handles [h]) printf ("%d state dig=%016llx\n", lineno, (unsigned long long) state_digest (h)) ; else printf ("%d state nohandle=1\n", lineno) ; }
 		else if (! strcmp (op, "err"))
 		{	SNDFILE *f = toks [1][0] == '-' ? NULL : handles [tokll (1)] ; const char *e = sf_strerror (f) ;
 			printf ("%d err code=%d msg=%d\n", lineno, sf_error (f), e && e [0] ? 1 : 0) ;
 			}
 		else if (! strcmp (op, "fault"))
-		{	VIO_MEM *m = &stores [tokll (1)] ; m->calls = 0 ; m->fault_at = tokll (2) ; m->fault_kind = tokll (3) ; m->fault_once = tokll (4) ; m->fault_done = 0 ;
+		{	VIO_MEM *m = &stores [tokll (1)] ; m->calls = 0 ; m->fault_at = tokll (2) ; m->fault_kind = tokll (3) ; m->fault_once = tokll (4) ; m->fault_done = 0 ; vio_unsnap (m) ;
 			printf ("%d fault set=1\n", lineno) ;
 			}
+		else if (! strcmp (op, "fdclose")) { int h = tokll (1) ; int r = hfd [h] >= 0 ? close (hfd [h]) : -2 ; printf ("%d fdclose ret=%d\n", lineno, r) ; }
 		else if (! strcmp (op, "calls")) printf ("%d calls n=%ld\n", lineno, stores [tokll (1)].calls) ;
 		else printf ("%d unknown op=%s\n", lineno, op) ;
 		fflush (stdout) ;
